@@ -23,7 +23,7 @@ RULE = ("4 of 5 runs: battery bench without noise (ideal, two-stage continuous, 
         "inside a whole simulation; non-trivial = a call crosses the (pilot-dependent) transition SoC; distinct = distinct "
         "(class, calc, crossing pattern, pilot regime, length)")
 PROBES = ["crossing_call", "above_transition_call", "below_transition_call", "pilot_capped_by_max", "fill_capped",
-          "rk4_crosscheck", "half_twice", "monotone_pilot", "monotone_T", "zero_pilot", "reset", "in_sim_calls"]
+          "rk4_crosscheck", "half_twice", "monotone_pilot", "monotone_T", "zero_pilot", "reset", "in_sim_calls", "json_restart"]
 FAULT_DIMENSION = "none - state distribution only (pure function of state and arguments)"
 REAL_VS_STUB = "real: Battery, Linear2StageBattery (+ EV/EVSE/Simulator in the in-simulation layer); ours: closed-form / RK4 reference"
 ASSUMPTIONS = ["stepwise calculation is documented as an approximation: only monotonicity, zero-pilot and reset clauses apply to it",
@@ -104,6 +104,11 @@ def check(sc):
 
     def on_call(i, op, pre, post, rate, batt):
         if rate is None and op["op"] == "reset_to":
+            return
+        if rate is None and op["op"] == "roundtrip":
+            out.probe("json_restart")
+            if post != pre:
+                out.add("C14/json_restart_state", "call %d: (charge, power) %s -> %s across a JSON save/load" % (i, pre, post))
             return
         if rate is None:
             out.probe("reset")
